@@ -17,8 +17,8 @@ import (
 
 type outLine struct {
 	sim.RunResult
-	Plan json.RawMessage `json:"plan,omitempty"`
-	WallMS int64 `json:"wall_ms"`
+	Plan   json.RawMessage `json:"plan,omitempty"`
+	WallMS int64           `json:"wall_ms"`
 }
 
 func main() {
